@@ -50,7 +50,7 @@ const KnownEmptyPayload = "D12"
 // KnownUnknownLength is the id under which the second defect (FINDINGS.md: an encrypted
 // body sent with unknown length, i.e. chunked, reaches the handler undecrypted) may be
 // listed in known_findings.json.
-const KnownUnknownLength = "D-C18-2"
+const KnownUnknownLength = "D19"
 
 // Transport shapes: the same logical request (same bytes readable from r.Body) can reach
 // the server with a declared length or without one.
@@ -1135,7 +1135,7 @@ type CSReq struct {
 	EmptyEncrypted      bool   // signature of the known finding D12
 	GenNow              int64  // the instant the timestamp was chosen against
 	Shape               string // transport shape (ShapeSized, ...)
-	UnknownLenEncrypted bool   // signature of the known finding D-C18-2
+	UnknownLenEncrypted bool   // signature of the known finding D19
 	Desc                string
 }
 
@@ -1184,7 +1184,7 @@ type CSGenOpt struct {
 	// UseCodecEncrypter, if set, encrypts the secret with go-zero's own client-side
 	// codec.RsaEncrypter (half of the cases) instead of the stdlib reference.
 	CodecEncrypt func(pubPEM, msg []byte) ([]byte, error)
-	// ExcludeUnknownLenEncrypted: the known finding D-C18-2 is listed; a valid request with
+	// ExcludeUnknownLenEncrypted: the known finding D19 is listed; a valid request with
 	// an encrypted body is only sent with a declared length.
 	ExcludeUnknownLenEncrypted bool
 	// Wire, if set, sends every request through a real HTTP server instead of calling the
@@ -1846,7 +1846,7 @@ type CryptCase struct {
 
 // CheckCrypt sends the case and returns the violated clause ("" if none) and, if the
 // failure is exactly the signature of a finding that may be listed as known (D12: empty
-// payload; D-C18-2: unknown length), that finding's id.
+// payload; D19: unknown length), that finding's id.
 func CheckCrypt(c CryptCase, build CryptBuild) (problem string, defect string) {
 	probe := &Probe{}
 	h := build(c.Key, probe)
